@@ -13,9 +13,11 @@ package http
 import (
 	"bufio"
 	"bytes"
+	"compress/gzip"
 	"encoding/json"
 	"fmt"
 	"io"
+	"net"
 	"net/http"
 	"net/http/httptest"
 	"os"
@@ -66,18 +68,32 @@ type c19HTTPWorker struct {
 	wi   int
 	sink *c19HTTPSink
 	srv  *httptest.Server
+	dead *c19DeadEndpoints
 }
 
-func (w *c19HTTPWorker) close() { w.srv.Close() }
+func (w *c19HTTPWorker) close() { w.srv.Close(); w.dead.close() }
+
+// transport part of the config: the live endpoint last, c.Dead dead ones in front; when dead endpoints are configured the
+// batcher retries long enough (constant 1ms pauses) to come across the live one
+func c19Transport(c *c19Case, live string, dead *c19DeadEndpoints) string {
+	eps, _ := json.Marshal(append(dead.urls(c.Dead), live))
+	retry := `"retry":1,"retention":"1ms"`
+	if c.Dead > 0 {
+		retry = `"retry":80,"retention":"1ms","retention_exponentially_multiplier":1`
+	}
+	return fmt.Sprintf(`"endpoints":%s,"use_gzip":%v,%s`, eps, c.Gzip, retry)
+}
 
 func (w *c19HTTPWorker) run(c *c19Case) (res c19CaseRes) {
 	res.N = c.N
+	hits0 := atomic.LoadInt64(&w.dead.hits)
+	defer func() { res.DeadHits = int(atomic.LoadInt64(&w.dead.hits) - hits0) }()
 	enc := ""
 	if c.Variant == "raw" { // every line is the JSON encoding of the event's `carrier` field
 		enc = `"encoding":{"type":"raw","params":{"field":"carrier"}},`
 	}
-	cfgJSON := fmt.Sprintf(`{"endpoints":[%q],`+enc+c19BatcherJSON+
-		`,"split_batch":%v,"retry":1,"retention":"1ms","connection_timeout":"10s","keep_alive":{"max_idle_conn_duration":"100ms"}}`, w.srv.URL+"/in/", c.Split)
+	cfgJSON := fmt.Sprintf(`{%s,`+enc+c19BatcherJSON+
+		`,"split_batch":%v,"connection_timeout":"10s","keep_alive":{"max_idle_conn_duration":"100ms"}}`, c19Transport(c, w.srv.URL+"/in/", w.dead), c.Split)
 	config, err := pipeline.GetConfig(&pipeline.PluginStaticInfo{Type: outPluginType, Factory: Factory}, []byte(cfgJSON), c19Values)
 	if err != nil {
 		panic(err)
@@ -106,7 +122,7 @@ func (w *c19HTTPWorker) run(c *c19Case) (res c19CaseRes) {
 func TestVerifC19(t *testing.T) {
 	c19Main(t, func(wi int) c19Worker {
 		sink := &c19HTTPSink{parse: c19ParseLines, okStatus: http.StatusOK, okBody: `ok`}
-		return &c19HTTPWorker{wi: wi, sink: sink, srv: httptest.NewServer(sink)}
+		return &c19HTTPWorker{wi: wi, sink: sink, srv: httptest.NewServer(sink), dead: c19NewDeadEndpoints(2)}
 	})
 }
 
@@ -128,6 +144,8 @@ type c19Case struct {
 	Split   bool      `json:"split"`
 	Batches [][]c19Ev `json:"batches"`
 	Pats    [][][]int `json:"pats"`
+	Gzip    bool      `json:"gzip"` // transport: use_gzip
+	Dead    int       `json:"dead"` // transport: number of dead endpoints configured next to the live one
 	Fail    []bool    `json:"fail"` // per batch: the sink answers 5xx to every attempt (the batch is given up)
 	DQ      bool      `json:"dq"`   // a dead queue is configured
 }
@@ -157,9 +175,10 @@ type c19BatchRes struct {
 }
 
 type c19CaseRes struct {
-	N       int           `json:"n"`
-	Batches []c19BatchRes `json:"batches"`
-	Panic   string        `json:"panic,omitempty"`
+	N        int           `json:"n"`
+	Batches  []c19BatchRes `json:"batches"`
+	Panic    string        `json:"panic,omitempty"`
+	DeadHits int           `json:"dead_hits"` // connections that arrived at a dead endpoint during the case
 }
 
 // ---- event content: adversarial values in the routing field (svc) and in the message -------------------
@@ -338,10 +357,67 @@ type c19HTTPSink struct {
 	okBody   string
 }
 
+// dead endpoints: the TCP connection is accepted (so that the hit can be counted) and reset at once -- a transport error
+// for the client, like a refused connection
+type c19DeadEndpoints struct {
+	lns  []net.Listener
+	hits int64
+}
+
+func c19NewDeadEndpoints(n int) *c19DeadEndpoints {
+	d := &c19DeadEndpoints{}
+	for i := 0; i < n; i++ {
+		ln, err := net.Listen("tcp", "127.0.0.1:0")
+		if err != nil {
+			panic(err)
+		}
+		d.lns = append(d.lns, ln)
+		go func() {
+			for {
+				conn, err := ln.Accept()
+				if err != nil {
+					return
+				}
+				atomic.AddInt64(&d.hits, 1)
+				if tc, ok := conn.(*net.TCPConn); ok {
+					_ = tc.SetLinger(0)
+				}
+				_ = conn.Close()
+			}
+		}()
+	}
+	return d
+}
+
+func (d *c19DeadEndpoints) urls(n int) []string {
+	var out []string
+	for i := 0; i < n && i < len(d.lns); i++ {
+		out = append(out, "http://"+d.lns[i].Addr().String())
+	}
+	return out
+}
+
+func (d *c19DeadEndpoints) close() {
+	for _, ln := range d.lns {
+		_ = ln.Close()
+	}
+}
+
 func (s *c19HTTPSink) ServeHTTP(w http.ResponseWriter, req *http.Request) {
 	body, _ := io.ReadAll(req.Body)
+	var gzErr error
+	if req.Header.Get("Content-Encoding") == "gzip" {
+		// what a sink does: decode the body (all gzip members) before it looks at the documents
+		var zr *gzip.Reader
+		if zr, gzErr = gzip.NewReader(bytes.NewReader(body)); gzErr == nil {
+			body, gzErr = io.ReadAll(zr)
+		}
+	}
 	s.mu.Lock()
 	r := s.parse(body, s.orig, s.route)
+	if gzErr != nil {
+		r.Framing = append(r.Framing, c19Framing{Where: "gzip_body", ID: -1, Text: gzErr.Error()})
+	}
 	r.Bytes = len(body)
 	if r.IDs == nil {
 		r.IDs = []int{}
